@@ -180,3 +180,43 @@ func (m *parserModel) isCallOf(e ast.Expr, f *FuncInfo) (*ast.CallExpr, bool) {
 	}
 	return c, true
 }
+
+// isErrorsLHS: e, the left side of an assignment, is the parser's error list: the field itself, or -- in a
+// method of the list's own type with a pointer receiver -- the list the receiver points to (*e = append(*e, ...)).
+func (m *parserModel) isErrorsLHS(e ast.Expr) bool {
+	if m.errorsF == nil {
+		return false
+	}
+	if _, fld := fieldOf(m.info, e); fld != nil && fld == m.errorsF {
+		return true
+	}
+	st, ok := unparen(e).(*ast.StarExpr)
+	if !ok {
+		return false
+	}
+	o, _ := objOf(m.info, st.X).(*types.Var)
+	if o == nil {
+		return false
+	}
+	pt, ok := o.Type().(*types.Pointer)
+	if !ok || !types.Identical(pt.Elem(), m.errorsF.Type()) {
+		return false
+	}
+	// the receiver of the enclosing method
+	for _, f := range m.w.Funcs("parser") {
+		if sig := f.Obj.Type().(*types.Signature); sig.Recv() == o {
+			return true
+		}
+	}
+	return false
+}
+
+// recordsInto: the call c of a method of the error list's type is made on the parser's error list field.
+func (m *parserModel) callOnErrors(c *ast.CallExpr) bool {
+	sel, ok := unparen(c.Fun).(*ast.SelectorExpr)
+	if !ok {
+		return false
+	}
+	_, fld := fieldOf(m.info, sel.X)
+	return fld != nil && fld == m.errorsF
+}
